@@ -85,6 +85,9 @@ def prepare():
         arr_tree=PyTree[Float[N, "a b"]],
         nested_tree=PyTree[PyTree[Float[N, "a"]]],
         nested_q=PyTree[PyTree[Shaped[N, "?n"]], "T"],
+        aba=Shaped[N, "a *v a"],
+        abab=Shaped[N, "a b a b"],
+        tl_tree=PyTree[Shaped[N, "a"]],
     )
 
     @jaxtyped(typechecker=typeguard.typechecked)
@@ -239,12 +242,25 @@ def pr_toplevel(k=0):
     return (real.check(A(7), _ANN["f_a"]), real.check(A(8), _ANN["f_a"]), real.raw_transcript())
 
 
+def op_toplevel_multi(k=0):
+    """checks made OUTSIDE every context: each gets throw-away bindings of its own - also while another
+    thread is in the middle of such a check (same axis name before and after a variadic / repeated)"""
+    return (
+        real.check(A(2 + k, 3, 2 + k), _ANN["aba"]),
+        real.check(A(2 + k, 3, 4 + k), _ANN["aba"]),
+        real.check(A(3 + k, 2, 3 + k, 2), _ANN["abab"]),
+        real.check([A(2 + k), A(2 + k)], _ANN["tl_tree"]),
+        real.check([A(2 + k), A(5 + k)], _ANN["tl_tree"]),
+        real.raw_transcript(),
+    )
+
+
 def pr_struct(k=0):
     return ctx(lambda: (real.check((1, 2), _ANN["int_tree"]), real.check((1, (2, 3)), _ANN["int_tree"]), real.raw_transcript()))
 
 
-OPS = {"qtree": op_qtree, "rollback": op_rollback, "call": op_call, "block": op_block, "tuptree": op_tuptree, "errmsg": op_error_message, "nested": op_nested, "fresh": op_fresh}
-PROBES = {"fresh": op_fresh, "wrong_dtype": pr_wrong_dtype, "question_outside": pr_question_outside, "same_name": pr_same_name, "toplevel": pr_toplevel, "struct": pr_struct, "call": op_call, "qtree": op_qtree, "nested": op_nested}
+OPS = {"qtree": op_qtree, "rollback": op_rollback, "call": op_call, "block": op_block, "tuptree": op_tuptree, "errmsg": op_error_message, "nested": op_nested, "fresh": op_fresh, "toplevel_multi": op_toplevel_multi}
+PROBES = {"fresh": op_fresh, "toplevel_multi": op_toplevel_multi, "wrong_dtype": pr_wrong_dtype, "question_outside": pr_question_outside, "same_name": pr_same_name, "toplevel": pr_toplevel, "struct": pr_struct, "call": op_call, "qtree": op_qtree, "nested": op_nested}
 ALL = dict(OPS, **{"pr_" + k: v for k, v in PROBES.items()})
 
 
